@@ -40,7 +40,7 @@ class Machine:
                 self.steps.append(op)
             self.events.append("skip " + k)
             return {"st": "skip"}
-        if k == "set_value" and "key" not in op:
+        if k in ("set_value", "clear_at") and "key" not in op and "args" in op:
             c = gen.visible_cells(refops.sp(self.ref, op["space"])).get(op["name"])
             if c and c[1].formula:
                 op = dict(op, key=gen.bound_key(c[1].formula["params"], op["args"]))
